@@ -203,12 +203,13 @@ def check_fill(method, din, fin, dout, fout, offset=0, trace=None, skip=None):
 
     def zero_slots_explain(v, r, c, states):
         longest = max(nrow, ncol) - 1
-        pl = paths(shape, DIRS16, "trunc")[(r, c)]
-        for _, valid, disp in states:
-            cl = first_valid(pl, valid, disp)
-            k = sum(1 for cells, x in zip(pl, cl) if x is None and len(cells) >= longest)
-            if k and _close(_median(_finite(cl) + [0.0] * k), v):
-                return True
+        for variant in VARIANTS:
+            pl = paths(shape, DIRS16, variant)[(r, c)]
+            for _, valid, disp in states:
+                cl = first_valid(pl, valid, disp)
+                k = sum(1 for cells, x in zip(pl, cl) if x is None and len(cells) >= longest)
+                if k and _close(_median(_finite(cl) + [0.0] * k), v):
+                    return True
         return False
 
     for r, c in np.argwhere(todo).tolist():
